@@ -429,9 +429,40 @@ func genC10(r *simrt.Rand, tier string) json.RawMessage {
 	ver := 0
 	nIds := r.Range(3, 12)
 	c.Ops = genWrites(r, c.Nodes, r.Range(4, 14), nIds, &ver, 0)
+	if tier == "thorough" && r.Bool(0.03) || tier != "thorough" && r.Bool(0.015) {
+		// many partitions (the property quantifies over 1..1024): one node, few operations
+		c.Nodes, c.Replicas = 1, 1
+		c.Partitions = []int{r.Range(257, 400), r.Range(400, 700), r.Range(700, 1024)}[r.Intn(3)]
+		ver = 0
+		// the same ids through the batch path and the single-item path
+		c.Ops = nil
+		ids := []int{}
+		vers := []int{}
+		for j := 0; j < 10; j++ {
+			ver++
+			ids = append(ids, 100+j)
+			vers = append(vers, ver)
+		}
+		c.Ops = append(c.Ops, W3Op{K: "bins", Node: 1, Ids: ids, Vers: vers})
+		for j := 0; j < 10; j++ {
+			ver++
+			c.Ops = append(c.Ops, W3Op{K: []string{"upd", "ins", "rem"}[r.Intn(3)], Node: 1, Ids: []int{100 + j}, Vers: []int{ver}})
+		}
+		ver++
+		c.Ops = append(c.Ops, W3Op{K: "ins", Node: 1, Ids: []int{300}, Vers: []int{ver}})
+		c.Ops = append(c.Ops, W3Op{K: "brem", Node: 1, Ids: []int{300, 101, 102}, Vers: []int{0, 0, 0}})
+		c.Cfg.SnapshotOffset = 5000
+		c.Cfg.YieldP = 0
+		b, _ := json.Marshal(c)
+		return b
+	}
 	if r.Bool(0.6) {
 		k := r.Range(1, len(c.Ops))
 		ops := append([]W3Op(nil), c.Ops[:k]...)
+		if r.Bool(0.5) {
+			ops = append(ops, W3Op{K: "wait", Ms: 10500}) // lets the zero group compact its log (threshold knob)
+			c.Cfg.SnapshotOffset = []int64{1, 2}[r.Intn(2)]
+		}
 		ops = append(ops, W3Op{K: "crashall"}, W3Op{K: "wait", Ms: 300})
 		for i := 1; i <= c.Nodes; i++ {
 			ops = append(ops, W3Op{K: "restart", Node: i})
@@ -841,10 +872,11 @@ type partsView struct{ ids []uuid.UUID }
 // C17
 
 type C17Case struct {
-	W3    W3Case   `json:"w3"`
-	Items int      `json:"items"`
-	Down  []int    `json:"down,omitempty"`
-	Cut   [][2]int `json:"cut,omitempty"`
+	W3     W3Case   `json:"w3"`
+	Items  int      `json:"items"`
+	Down   []int    `json:"down,omitempty"`
+	Cut    [][2]int `json:"cut,omitempty"`
+	Remove bool     `json:"remove,omitempty"`
 }
 
 func genC17(r *simrt.Rand, tier string) json.RawMessage {
@@ -857,12 +889,25 @@ func genC17(r *simrt.Rand, tier string) json.RawMessage {
 		c.W3.Replicas = c.W3.Nodes
 	}
 	c.Items = r.Range(1, 16)
-	if c.W3.Nodes > 1 && r.Bool(0.3) {
-		if r.Bool(0.5) {
+	if c.W3.Nodes > 1 && r.Bool(0.5) {
+		switch r.Intn(3) {
+		case 0:
 			c.Down = []int{r.Range(2, c.W3.Nodes)}
-		} else {
+		case 1:
 			a := r.Range(1, c.W3.Nodes)
 			c.Cut = [][2]int{{a, a%c.W3.Nodes + 1}}
+		case 2: // a host goes down and is removed from the membership: its partitions stay assigned to it
+			if r.Bool(0.5) {
+				c.W3.Nodes = 2 // the survivor then is a cluster of one
+				if c.W3.Replicas > 2 {
+					c.W3.Replicas = 2
+				}
+			}
+			c.Down = []int{r.Range(2, c.W3.Nodes)}
+			c.Remove = true
+			if r.Bool(0.7) {
+				c.W3.Replicas = 1
+			}
 		}
 	}
 	b, _ := json.Marshal(c)
@@ -934,6 +979,23 @@ func execC17(raw json.RawMessage, wantLog bool) (out Outcome) {
 			out.Stat("partitions_with_different_sizes", 1)
 		}
 		faulty := len(c.Down) > 0 || len(c.Cut) > 0
+		removeFirst := c.Remove && len(c.Down) > 0 && c.W3.Cfg.Seed%2 == 0
+		if removeFirst && s.nodes[0].alive {
+			// the node is removed from the membership while it is still up (so the change can
+			// commit), then taken out of service; its partitions stay assigned to it
+			target := s.nodes[c.Down[0]-1]
+			for attempt := 0; attempt < 4; attempt++ {
+				op := s.client(s.nodes[0], fmt.Sprintf("remove-node n%d", target.idx), 8*time.Second, func(ctx context.Context, n *simNode) (interface{}, error) {
+					return n.svcNM.RemoveNode(ctx, &pb.Node{Id: target.id})
+				})
+				s.runUntil(func() bool { return op.done }, 12*time.Second)
+				if op.done && op.err == nil {
+					out.Stat("node_removed_from_membership", 1)
+					break
+				}
+			}
+			s.runFor(500 * time.Millisecond)
+		}
 		for _, d := range c.Down {
 			if d >= 1 && d <= len(s.nodes) {
 				s.stopNode(s.nodes[d-1], true)
@@ -943,6 +1005,20 @@ func execC17(raw json.RawMessage, wantLog bool) (out Outcome) {
 			s.blocked[[2]uint64{uint64(l[0]), uint64(l[1])}] = true
 			s.blocked[[2]uint64{uint64(l[1]), uint64(l[0])}] = true
 			out.Stat("fault_partition", 1)
+		}
+		if c.Remove && !removeFirst && len(c.Down) > 0 && s.nodes[0].alive {
+			target := s.nodes[c.Down[0]-1]
+			for attempt := 0; attempt < 4; attempt++ {
+				op := s.client(s.nodes[0], fmt.Sprintf("remove-node n%d", target.idx), 8*time.Second, func(ctx context.Context, n *simNode) (interface{}, error) {
+					return n.svcNM.RemoveNode(ctx, &pb.Node{Id: target.id})
+				})
+				s.runUntil(func() bool { return op.done }, 12*time.Second)
+				if op.done && op.err == nil {
+					out.Stat("node_removed_from_membership", 1)
+					break
+				}
+			}
+			s.runFor(2 * time.Second)
 		}
 		for _, n := range s.nodes {
 			if !n.alive {
@@ -1068,7 +1144,7 @@ func init() {
 		genC11, execC11, shrinkC05, 300, 20000)
 	mk("C17", "exploration",
 		"case = cluster of 1..4 servers, dataset with 1..6 partitions and 1..3 replicas, 1..16 items (partitions end up with different sizes), SizeInfo asked on every node, yield probability 0..100% at the goroutine starts of the lookup loop; optionally a crashed node or a blocked link; non-trivial = at least one size request; distinct = hash of the event log",
-		[]string{"size_requests", "size_requests_with_remote_lookups", "sizes_checked_against_sum", "partitions_with_different_sizes", "size_failed_loudly", "fault_crash", "fault_partition"},
+		[]string{"size_requests", "size_requests_with_remote_lookups", "sizes_checked_against_sum", "partitions_with_different_sizes", "size_failed_loudly", "fault_crash", "fault_partition", "node_removed_from_membership"},
 		genC17, execC17, shrinkC17, 300, 20000)
 }
 
